@@ -452,7 +452,8 @@ def check_index_dtypes(ctx):
 
     rng = ctx.rng
     block = arim.Material(6300.0, 3100.0, density=2700.0, state_of_matter="solid")
-    for dtype_idx, (n, p) in [(np.int16, (182, 181)), (np.int16, (40, 30)), (np.int32, (200, 170)), (np.int64, (50, 60)), (np.int8, (12, 11))]:
+    for dtype_idx, (n, p) in [(np.int16, (182, 181)), (np.int16, (40, 30)), (np.int32, (200, 170)), (np.int64, (50, 60)), (np.int8, (12, 11)),
+                              (None, (2, 33000)), (None, (33000, 2))]:      # None: the default index type, a first / last point set beyond 2^15 points
         for nmid in (None, 3, (3, 11)):
             A = g.Points(np.c_[np.linspace(-0.02, 0.02, n), np.zeros(n), np.zeros(n)], "A")
             B = g.Points(np.c_[rng.uniform(-0.02, 0.02, p), np.zeros(p), rng.uniform(0.01, 0.03, p)], "B")
@@ -461,19 +462,20 @@ def check_index_dtypes(ctx):
                 continue
             sets = [A] + [g.Points(np.c_[rng.uniform(-0.01, 0.01, m_), np.zeros(m_), np.full(m_, 0.003 * (q_ + 1))], f"M{q_}") for q_, m_ in enumerate(mids)] + [B]
             fp = ray.FermatPath(tuple(x for k, s_ in enumerate(sets) for x in ((s_,) if k == 0 else (block.longitudinal_vel if k % 2 else block.transverse_vel, s_))))
-            cj = {"op": "index_dtype", "dtype_indices": np.dtype(dtype_idx).name, "n": n, "p": p, "interior_points": mids}
-            ctx.case(("idxdtype", np.dtype(dtype_idx).name, n, p, tuple(mids)), True)
-            ctx.count("index_dtype:" + np.dtype(dtype_idx).name)
+            dname = "default" if dtype_idx is None else np.dtype(dtype_idx).name
+            cj = {"op": "index_dtype", "dtype_indices": dname, "n": n, "p": p, "interior_points": mids}
+            ctx.case(("idxdtype", dname, n, p, tuple(mids)), True)
+            ctx.count("index_dtype:" + dname)
             try:
-                rays = ray.FermatSolver((fp,), dtype_indices=dtype_idx).solve()[fp]
+                rays = (ray.FermatSolver((fp,), dtype_indices=dtype_idx) if dtype_idx is not None else ray.FermatSolver((fp,))).solve()[fp]
             except Exception as e:
-                ctx.violate(f"FermatSolver(dtype_indices={np.dtype(dtype_idx).name}) raised {type(e).__name__}: {str(e)[:80]} ({n} x {p} rays, every point set fits the type)", cj, {"kind": "index_dtype"})
+                ctx.violate(f"FermatSolver(dtype_indices={dname}) raised {type(e).__name__}: {str(e)[:80]} ({n} x {p} rays, every point set fits the type)", cj, {"kind": "index_dtype"})
                 continue
             ix = np.asarray(rays.indices).astype(np.int64)
             ii, jj = np.meshgrid(np.arange(n), np.arange(p), indexing="ij")
             if ix.shape != (len(sets), n, p) or not np.array_equal(ix[0], ii) or not np.array_equal(ix[-1], jj):
                 bad = int((ix[0] != ii).sum() + (ix[-1] != jj).sum()) if ix.shape == (len(sets), n, p) else -1
-                ctx.violate(f"indices[0, i, j] != i or indices[-1, i, j] != j for {bad} rays with dtype_indices={np.dtype(dtype_idx).name} and {n} x {p} = {n * p} rays", cj, {"kind": "index_layout"})
+                ctx.violate(f"indices[0, i, j] != i or indices[-1, i, j] != j for {bad} rays with dtype_indices={dname} and {n} x {p} = {n * p} rays", cj, {"kind": "index_layout"})
                 continue
             # the reported points realise the reported time (and it is the minimum over the interior set)
             pts = [s_.coords for s_ in sets]
@@ -483,19 +485,19 @@ def check_index_dtypes(ctx):
                 a_, b_ = pts[k][ix[k]], pts[k + 1][ix[k + 1]]
                 tot += np.sqrt(((a_ - b_) ** 2).sum(axis=-1)) / vs[k]
             if not np.allclose(tot, rays.times, rtol=1e-12, atol=0):
-                ctx.violate(f"the reported points do not realise the reported times (dtype_indices={np.dtype(dtype_idx).name}, {n * p} rays)", cj, {"kind": "index_layout"})
+                ctx.violate(f"the reported points do not realise the reported times (dtype_indices={dname}, {n * p} rays)", cj, {"kind": "index_layout"})
             if len(mids) == 2:
                 leg = lambda a_, b_, v_: np.sqrt(((a_[:, None] - b_[None, :]) ** 2).sum(-1)) / v_
                 t01, t12, t23 = leg(pts[0], pts[1], vs[0]), leg(pts[1], pts[2], vs[1]), leg(pts[2], pts[3], vs[2])
                 best = (t01[:, :, None, None] + t12[None, :, :, None] + t23[None, None, :, :]).min(axis=(1, 2))
                 if not np.allclose(best, rays.times, rtol=1e-12, atol=0):
-                    ctx.violate(f"times are not the minimum over the interior points (dtype_indices={np.dtype(dtype_idx).name}, two interior sets)", cj, {"kind": "index_dtype"})
+                    ctx.violate(f"times are not the minimum over the interior points (dtype_indices={dname}, two interior sets)", cj, {"kind": "index_dtype"})
             elif len(mids) == 1:
                 nmid = mids[0]
                 best = np.min([np.sqrt(((pts[0][:, None] - pts[1][m_][None, None]) ** 2).sum(-1)) / vs[0] + np.sqrt(((pts[1][m_][None, None] - pts[2][None, :]) ** 2).sum(-1)) / vs[1]
                                for m_ in range(nmid)], axis=0)
                 if not np.allclose(best, rays.times, rtol=1e-12, atol=0):
-                    ctx.violate(f"times are not the minimum over the interior points (dtype_indices={np.dtype(dtype_idx).name})", cj, {"kind": "index_dtype"})
+                    ctx.violate(f"times are not the minimum over the interior points (dtype_indices={dname})", cj, {"kind": "index_dtype"})
 
 
 def check_coordinate_dtypes(ctx):
